@@ -58,8 +58,11 @@ pub fn observe(g: &dyn G, lvl: ObsLevel) -> Obs {
             },
         })
         .collect();
+    // is_empty() is part of every complete look (its answer must agree with len(); it is also one
+    // more traversal of the store that runs under the sanitizers of C07)
+    let len = if g.is_empty() { 0 } else { g.len() };
     Obs {
-        len: g.len(),
+        len: if len == 0 { g.len() } else { len },
         keys,
         verts,
         debug: if lvl.debug { Some(g.debug()) } else { None },
